@@ -229,9 +229,9 @@ def AtomPost (inp : List Nat) (p : Option ClassAtom × List Nat) : Prop :=
   | none => p.2 = inp ∧ (inp = [] ∨ ∃ r, inp = 0x5D :: r)
   | some a => AtomOK a ∧ SSuf p.2 inp
 
-theorem bracketClassAtom_ens (fl : Flags) (inp : List Nat) (hb : Bnd inp) :
-    Ens (bracketClassAtom fl inp) (AtomPost inp) := by
-  fun_cases bracketClassAtom fl inp
+theorem bracketClassAtom_ens (fl : Flags) (hn : Bool) (inp : List Nat) (hb : Bnd inp) :
+    Ens (bracketClassAtom fl hn inp) (AtomPost inp) := by
+  fun_cases bracketClassAtom fl hn inp
   all_goals try simp only [*]
   all_goals try (simp [AtomPost, AtomOK]; done)
   all_goals try (simp only [Ens_ok, AtomPost, AtomOK]; refine ⟨by first | trivial | omega, by ssuf_tac⟩; done)
@@ -239,36 +239,36 @@ theorem bracketClassAtom_ens (fl : Flags) (inp : List Nat) (hb : Bnd inp) :
   · exact (propertyEscape_ens _ _).error_of_eq ‹_›
   · have := (propertyEscape_ens _ _).ok_of_eq ‹propertyEscape _ _ = _›
     exact ⟨this.1, SSuf.of_tail _ (suf_cons _ this.2.1)⟩
-  · exact (characterEscape_ens _ _ _ hb.tail).error_of_eq ‹_›
-  · have := (characterEscape_ens _ _ _ hb.tail).ok_of_eq ‹characterEscape _ _ = _›
+  · exact (characterEscape_ens _ _ _ _ hb.tail).error_of_eq ‹_›
+  · have := (characterEscape_ens _ _ _ _ hb.tail).ok_of_eq ‹characterEscape _ _ _ = _›
     exact ⟨this.2, SSuf.of_tail _ this.1.1⟩
   · exact ⟨hb.head, by ssuf_tac⟩
 
 open Regress Regress.IR
 
-theorem bracketLoop_ens (fl : Flags) (invert : Bool) (fuel : Nat) (inp : List Nat) (cps : CPS.IvList)
+theorem bracketLoop_ens (fl : Flags) (hn : Bool) (invert : Bool) (fuel : Nat) (inp : List Nat) (cps : CPS.IvList)
     (hf : inp.length < fuel) (hb : Bnd inp) (hw : CPS.WF cps) :
-    Ens (bracketLoop fl invert fuel inp cps) (fun p => Leaf p.1 ∧ SSuf p.2 inp) := by
-  fun_induction bracketLoop fl invert fuel inp cps
+    Ens (bracketLoop fl hn invert fuel inp cps) (fun p => Leaf p.1 ∧ SSuf p.2 inp) := by
+  fun_induction bracketLoop fl hn invert fuel inp cps
   all_goals try simp only [*]
   all_goals try (simp; done)
   · simp at hf
   · rename_i cps0 _ _ _ _
     exact ⟨mkBracket_leaf _ (icase_wf _ hw), by ssuf_tac⟩
-  · exact (bracketClassAtom_ens _ _ hb).error_of_eq ‹_›
+  · exact (bracketClassAtom_ens _ _ _ hb).error_of_eq ‹_›
   · -- the atom is `none` only at `]` or at the end of input: impossible here
-    have h := (bracketClassAtom_ens _ _ hb).ok_of_eq ‹bracketClassAtom _ _ = _›
+    have h := (bracketClassAtom_ens _ _ _ hb).ok_of_eq ‹bracketClassAtom _ _ _ = _›
     simp [AtomPost] at h
     simp_all
-  · have h1 := (bracketClassAtom_ens _ _ hb).ok_of_eq ‹bracketClassAtom _ (_ :: _) = _›
+  · have h1 := (bracketClassAtom_ens _ _ _ hb).ok_of_eq ‹bracketClassAtom _ _ (_ :: _) = _›
     simp only [AtomPost] at h1
     have hb2 : Bnd _ := (hb.suf h1.2.1).tail
-    exact (bracketClassAtom_ens _ _ hb2).error_of_eq ‹_›
+    exact (bracketClassAtom_ens _ _ _ hb2).error_of_eq ‹_›
   · rename_i ec rest1 _ second inp2 inp3 _ _ ih
-    have h1 := (bracketClassAtom_ens _ _ hb).ok_of_eq ‹bracketClassAtom _ (_ :: _) = _›
+    have h1 := (bracketClassAtom_ens _ _ _ hb).ok_of_eq ‹bracketClassAtom _ _ (_ :: _) = _›
     simp only [AtomPost] at h1
     have hb2 : Bnd _ := (hb.suf h1.2.1).tail
-    have h2 := (bracketClassAtom_ens _ _ hb2).ok_of_eq ‹bracketClassAtom _ _ = Except.ok (none, _)›
+    have h2 := (bracketClassAtom_ens _ _ _ hb2).ok_of_eq ‹bracketClassAtom _ _ _ = Except.ok (none, _)›
     simp only [AtomPost] at h2
     have hs : SSuf inp3 (ec :: rest1) := by
       rw [h2.1]; exact SSuf.suf_trans (suf_cons 45 (suf_refl _)) h1.2
@@ -276,10 +276,10 @@ theorem bracketLoop_ens (fl : Flags) (invert : Bool) (fuel : Nat) (inp : List Na
       (addClassAtom_wf _ (addClassAtom_wf _ hw h1.1) (by simp [AtomOK]))).mono ?_
     exact fun p hp => ⟨hp.1, hp.2.trans hs⟩
   · rename_i ih
-    have h1 := (bracketClassAtom_ens _ _ hb).ok_of_eq ‹bracketClassAtom _ (_ :: _) = _›
+    have h1 := (bracketClassAtom_ens _ _ _ hb).ok_of_eq ‹bracketClassAtom _ _ (_ :: _) = _›
     simp only [AtomPost] at h1
     have hb2 : Bnd _ := (hb.suf h1.2.1).tail
-    have h2 := (bracketClassAtom_ens _ _ hb2).ok_of_eq ‹bracketClassAtom _ _ = Except.ok (some _, _)›
+    have h2 := (bracketClassAtom_ens _ _ _ hb2).ok_of_eq ‹bracketClassAtom _ _ _ = Except.ok (some _, _)›
     simp only [AtomPost] at h2
     have hs : SSuf _ _ := SSuf.trans h2.2 (SSuf.suf_trans (suf_cons _ (suf_refl _)) h1.2)
     simp only [if_false]
@@ -287,10 +287,10 @@ theorem bracketLoop_ens (fl : Flags) (invert : Bool) (fuel : Nat) (inp : List Na
       (C12.add_wf hw ⟨by simp only; omega, h2.1⟩)).mono ?_
     exact fun p hp => ⟨hp.1, hp.2.trans hs⟩
   · rename_i ih
-    have h1 := (bracketClassAtom_ens _ _ hb).ok_of_eq ‹bracketClassAtom _ (_ :: _) = _›
+    have h1 := (bracketClassAtom_ens _ _ _ hb).ok_of_eq ‹bracketClassAtom _ _ (_ :: _) = _›
     simp only [AtomPost] at h1
     have hb2 : Bnd _ := (hb.suf h1.2.1).tail
-    have h2 := (bracketClassAtom_ens _ _ hb2).ok_of_eq ‹bracketClassAtom _ _ = Except.ok (some _, _)›
+    have h2 := (bracketClassAtom_ens _ _ _ hb2).ok_of_eq ‹bracketClassAtom _ _ _ = Except.ok (some _, _)›
     simp only [AtomPost] at h2
     have hs : SSuf _ _ := SSuf.trans h2.2 (SSuf.suf_trans (suf_cons _ (suf_refl _)) h1.2)
     simp only [Bool.false_eq_true, if_false]
@@ -298,19 +298,19 @@ theorem bracketLoop_ens (fl : Flags) (invert : Bool) (fuel : Nat) (inp : List Na
       (addClassAtom_wf _ (addClassAtom_wf _ (addClassAtom_wf _ hw h1.1) (by simp [AtomOK])) h2.1)).mono ?_
     exact fun p hp => ⟨hp.1, hp.2.trans hs⟩
   · rename_i ih
-    have h1 := (bracketClassAtom_ens _ _ hb).ok_of_eq ‹bracketClassAtom _ (_ :: _) = _›
+    have h1 := (bracketClassAtom_ens _ _ _ hb).ok_of_eq ‹bracketClassAtom _ _ (_ :: _) = _›
     simp only [AtomPost] at h1
     refine (ih (by have := h1.2.2; simp only [List.length_cons] at hf this; omega) (hb.suf h1.2.1)
       (addClassAtom_wf _ hw h1.1)).mono ?_
     exact fun p hp => ⟨hp.1, hp.2.trans h1.2⟩
 
 /-- `consume_bracket`: the `consume('[')` unwrap is safe on non-empty input. -/
-theorem consumeBracket_ens (fl : Flags) (c : Nat) (rest : List Nat) (hb : Bnd (c :: rest)) :
-    Ens (consumeBracket fl (c :: rest)) (fun p => Leaf p.1 ∧ SSuf p.2 (c :: rest)) := by
+theorem consumeBracket_ens (fl : Flags) (hn : Bool) (c : Nat) (rest : List Nat) (hb : Bnd (c :: rest)) :
+    Ens (consumeBracket fl hn (c :: rest)) (fun p => Leaf p.1 ∧ SSuf p.2 (c :: rest)) := by
   have key : ∀ invert (rest' : List Nat), rest' <:+ rest →
-      Ens (bracketLoop fl invert (rest'.length + 2) rest' []) (fun p => Leaf p.1 ∧ SSuf p.2 (c :: rest)) := by
+      Ens (bracketLoop fl hn invert (rest'.length + 2) rest' []) (fun p => Leaf p.1 ∧ SSuf p.2 (c :: rest)) := by
     intro invert rest' hs
-    refine (bracketLoop_ens fl invert _ rest' [] (by omega) (hb.tail.suf hs) (by simp [CPS.WF])).mono ?_
+    refine (bracketLoop_ens fl hn invert _ rest' [] (by omega) (hb.tail.suf hs) (by simp [CPS.WF])).mono ?_
     exact fun p hp => ⟨hp.1, SSuf.of_tail _ (hp.2.1.trans hs)⟩
   simp only [consumeBracket]
   split
@@ -434,21 +434,21 @@ theorem classSetNode_leaf {self : ClassSet} (hs : CSOK self) (icase negateSet : 
 
 open Regress Regress.IR
 
-theorem classSetCharacter_ens (unicode : Bool) (inp : List Nat) (hb : Bnd inp) :
-    Ens (classSetCharacter unicode inp) (fun p => p.1 ≤ 0x10FFFF ∧ SSuf p.2 inp) := by
-  fun_cases classSetCharacter unicode inp
+theorem classSetCharacter_ens (unicode hn : Bool) (inp : List Nat) (hb : Bnd inp) :
+    Ens (classSetCharacter unicode hn inp) (fun p => p.1 ≤ 0x10FFFF ∧ SSuf p.2 inp) := by
+  fun_cases classSetCharacter unicode hn inp
   all_goals try simp only [*]
   all_goals try (simp; done)
+  · exact ⟨by simp, by ssuf_tac⟩
   · exact ⟨hb.tail.head, by ssuf_tac⟩
-  · exact ⟨hb.tail.head, by ssuf_tac⟩
-  · refine (characterEscape_ens _ _ _ hb.tail).mono ?_
+  · refine (characterEscape_ens _ _ _ _ hb.tail).mono ?_
     exact fun p hp => ⟨hp.2, SSuf.of_tail _ hp.1.1⟩
   · exact ⟨hb.head, by ssuf_tac⟩
 
-theorem classStringLoop_ens (unicode : Bool) (fuel : Nat) (inp : List Nat) (alts : List (List Nat))
+theorem classStringLoop_ens (unicode hn : Bool) (fuel : Nat) (inp : List Nat) (alts : List (List Nat))
     (alt : List Nat) (hf : inp.length < fuel) (hb : Bnd inp) (ha : ∀ a ∈ alts, Bnd a) (ha' : Bnd alt) :
-    Ens (classStringLoop unicode fuel inp alts alt) (fun p => (∀ a ∈ p.1, Bnd a) ∧ SSuf p.2 inp) := by
-  fun_induction classStringLoop unicode fuel inp alts alt
+    Ens (classStringLoop unicode hn fuel inp alts alt) (fun p => (∀ a ∈ p.1, Bnd a) ∧ SSuf p.2 inp) := by
+  fun_induction classStringLoop unicode hn fuel inp alts alt
   all_goals try simp only [*]
   all_goals try (simp; done)
   · simp at hf
@@ -466,9 +466,9 @@ theorem classStringLoop_ens (unicode : Bool) (fuel : Nat) (inp : List Nat) (alts
     rcases h with h | rfl
     · exact ha a h
     · exact ha'
-  · exact (classSetCharacter_ens _ _ hb).error_of_eq ‹_›
+  · exact (classSetCharacter_ens _ _ _ hb).error_of_eq ‹_›
   · rename_i ih
-    have h1 := (classSetCharacter_ens _ _ hb).ok_of_eq ‹classSetCharacter _ _ = _›
+    have h1 := (classSetCharacter_ens _ _ _ hb).ok_of_eq ‹classSetCharacter _ _ _ = _›
     have := h1.2.2
     simp only [List.length_cons] at hf this
     refine (ih (by omega) (hb.suf h1.2.1) ha ?_).mono (fun p hp => ⟨hp.1, hp.2.trans h1.2⟩)
@@ -508,18 +508,18 @@ def OpPost (st : CSt) (p : Operand × CSt) : Prop :=
 def CSPre (fuel : Nat) (k : Nat) (st : CSt) : Prop :=
   2 * st.inp.length + k ≤ fuel ∧ Bnd st.inp ∧ st.depth ≤ Gen.MAX_NESTING_DEPTH
 
-structure ClassSetIH (fl : Flags) (fuel : Nat) : Prop where
-  expr : ∀ neg st, CSPre fuel 2 st → Ens (classSetExpression fl fuel neg st) (CSPost st)
-  union : ∀ neg st r, CSPre fuel 2 st → CSOK r → Ens (classSetUnion fl fuel neg st r) (CSPost st)
-  inter : ∀ neg st r, CSPre fuel 2 st → CSOK r → Ens (classSetIntersection fl fuel neg st r) (CSPost st)
-  sub : ∀ neg st r, CSPre fuel 2 st → CSOK r → Ens (classSetSubtraction fl fuel neg st r) (CSPost st)
-  operand : ∀ neg st, CSPre fuel 1 st → Ens (classSetOperand fl fuel neg st) (OpPost st)
+structure ClassSetIH (fl : Flags) (hn : Bool) (fuel : Nat) : Prop where
+  expr : ∀ neg st, CSPre fuel 2 st → Ens (classSetExpression fl hn fuel neg st) (CSPost st)
+  union : ∀ neg st r, CSPre fuel 2 st → CSOK r → Ens (classSetUnion fl hn fuel neg st r) (CSPost st)
+  inter : ∀ neg st r, CSPre fuel 2 st → CSOK r → Ens (classSetIntersection fl hn fuel neg st r) (CSPost st)
+  sub : ∀ neg st r, CSPre fuel 2 st → CSOK r → Ens (classSetSubtraction fl hn fuel neg st r) (CSPost st)
+  operand : ∀ neg st, CSPre fuel 1 st → Ens (classSetOperand fl hn fuel neg st) (OpPost st)
 
-theorem classSetOperand_step (fl : Flags) (fuel : Nat) (ih : ClassSetIH fl fuel) (neg : Bool) (st : CSt)
-    (hp : CSPre (fuel + 1) 1 st) : Ens (classSetOperand fl (fuel + 1) neg st) (OpPost st) := by
+theorem classSetOperand_step (fl : Flags) (hn : Bool) (fuel : Nat) (ih : ClassSetIH fl hn fuel) (neg : Bool) (st : CSt)
+    (hp : CSPre (fuel + 1) 1 st) : Ens (classSetOperand fl hn (fuel + 1) neg st) (OpPost st) := by
   obtain ⟨hf, hb, hd⟩ := hp
   generalize hfu : fuel + 1 = f
-  fun_cases classSetOperand fl f neg st
+  fun_cases classSetOperand fl hn f neg st
   all_goals try simp only [*]
   all_goals try (simp; done)
   all_goals try (simp at hfu; done)
@@ -548,7 +548,7 @@ theorem classSetOperand_step (fl : Flags) (fuel : Nat) (ih : ClassSetIH fl fuel)
     have hl := hs.length_le
     simp only [List.length_cons] at hf
     have h1 := (ih.expr (invert || neg) ⟨rest, st.depth + 1⟩ ⟨by show 2 * rest.length + 2 ≤ fuel; omega, hb.tail.suf hs, hd'⟩).ok_of_eq
-      ‹classSetExpression _ _ _ _ = _›
+      ‹classSetExpression _ _ _ _ _ = _›
     simp only [CSPost] at h1
     simp only [Ens_ok, OpPost, OperandOK, hinp]
     refine ⟨?_, SSuf.of_tail _ (h1.2.1.1.trans hs), by rw [h1.2.2]; show st.depth + 1 - 1 = st.depth; omega⟩
@@ -558,17 +558,17 @@ theorem classSetOperand_step (fl : Flags) (fuel : Nat) (ih : ClassSetIH fl fuel)
     · exact h1.1
   -- `\q{`
   · have hb' : Bnd _ := hb.tail.tail.tail
-    refine Ens.error_of_eq (classStringLoop_ens _ _ _ [] [] ?_ hb' ?_ ?_) ‹_›
+    refine Ens.error_of_eq (classStringLoop_ens _ _ _ _ [] [] ?_ hb' ?_ ?_) ‹_›
     · omega
     · simp
     · simp [Bnd]
   · have hb' : Bnd _ := hb.tail.tail.tail
-    have h1 := Ens.ok_of_eq (classStringLoop_ens _ _ _ [] [] (Nat.lt_succ_self _) hb'
-      (by simp) (by simp [Bnd])) ‹classStringLoop _ _ _ _ _ = _›
+    have h1 := Ens.ok_of_eq (classStringLoop_ens _ _ _ _ [] [] (Nat.lt_succ_self _) hb'
+      (by simp) (by simp [Bnd])) ‹classStringLoop _ _ _ _ _ _ = _›
     exact (classStringSet_ens neg _ {} h1.1 nil_wf).error_of_eq ‹_›
   · have hb' : Bnd _ := hb.tail.tail.tail
-    have h1 := Ens.ok_of_eq (classStringLoop_ens _ _ _ [] [] (Nat.lt_succ_self _) hb'
-      (by simp) (by simp [Bnd])) ‹classStringLoop _ _ _ _ _ = _›
+    have h1 := Ens.ok_of_eq (classStringLoop_ens _ _ _ _ [] [] (Nat.lt_succ_self _) hb'
+      (by simp) (by simp [Bnd])) ‹classStringLoop _ _ _ _ _ _ = _›
     have h2 := (classStringSet_ens neg _ {} h1.1 nil_wf).ok_of_eq ‹classStringSet _ _ _ = _›
     simp only [Ens_ok, OpPost, OperandOK, hinp]
     exact ⟨h2, SSuf.of_tail _ (suf_cons _ (suf_cons _ h1.2.1)), trivial⟩
@@ -586,17 +586,17 @@ theorem classSetOperand_step (fl : Flags) (fuel : Nat) (ih : ClassSetIH fl fuel)
     simp only [Ens_ok, OpPost, OperandOK, hinp]
     exact ⟨C12.inverted_wf (icase_wf _ h1.1), SSuf.of_tail _ (suf_cons _ h1.2.1), trivial⟩
   -- other escapes
-  · exact (characterEscape_ens _ _ _ hb.tail).error_of_eq ‹_›
-  · have h1 := (characterEscape_ens _ _ _ hb.tail).ok_of_eq ‹characterEscape _ _ = _›
+  · exact (characterEscape_ens _ _ _ _ hb.tail).error_of_eq ‹_›
+  · have h1 := (characterEscape_ens _ _ _ _ hb.tail).ok_of_eq ‹characterEscape _ _ _ = _›
     simp only [Ens_ok, OpPost, OperandOK, hinp]
     exact ⟨h1.2, SSuf.of_tail _ h1.1.1, trivial⟩
   -- plain characters
-  · have hx := ‹classSetCharacter _ _ = _›
+  · have hx := ‹classSetCharacter _ _ _ = _›
     rw [hinp] at hx
-    exact (classSetCharacter_ens _ _ hb).error_of_eq hx
-  · have hx := ‹classSetCharacter _ _ = _›
+    exact (classSetCharacter_ens _ _ _ hb).error_of_eq hx
+  · have hx := ‹classSetCharacter _ _ _ = _›
     rw [hinp] at hx
-    have h1 := (classSetCharacter_ens _ _ hb).ok_of_eq hx
+    have h1 := (classSetCharacter_ens _ _ _ hb).ok_of_eq hx
     simp only [Ens_ok, OpPost, OperandOK, hinp]
     exact ⟨h1.1, h1.2, trivial⟩
 
@@ -620,11 +620,11 @@ theorem range_ok {r : ClassSet} (hr : CSOK r) {f l : Nat} (hl : l ≤ 0x10FFFF) 
     CSOK { cps := CPS.add r.cps { first := f, last := l }, alts := r.alts } :=
   C12.add_wf hr ⟨by simp only; omega, hl⟩
 
-theorem classSetUnion_step (fl : Flags) (fuel : Nat) (ih : ClassSetIH fl fuel) (neg : Bool) (st : CSt)
+theorem classSetUnion_step (fl : Flags) (hn : Bool) (fuel : Nat) (ih : ClassSetIH fl hn fuel) (neg : Bool) (st : CSt)
     (r : ClassSet) (hp : CSPre (fuel + 1) 2 st) (hr : CSOK r) :
-    Ens (classSetUnion fl (fuel + 1) neg st r) (CSPost st) := by
+    Ens (classSetUnion fl hn (fuel + 1) neg st r) (CSPost st) := by
   generalize hfu : fuel + 1 = f
-  fun_cases classSetUnion fl f neg st r
+  fun_cases classSetUnion fl hn f neg st r
   all_goals try simp only [*]
   all_goals try (simp; done)
   all_goals try (simp at hfu; done)
@@ -634,46 +634,46 @@ theorem classSetUnion_step (fl : Flags) (fuel : Nat) (ih : ClassSetIH fl fuel) (
     exact ⟨hr, by ssuf_tac, trivial⟩
   · exact (ih.operand _ _ hp.operand).error_of_eq ‹_›
   · rename_i st1 inp2 hst1 _ _ _ _ _
-    have h1 := (ih.operand neg st hp.operand).ok_of_eq ‹classSetOperand fl fuel neg st = _›
+    have h1 := (ih.operand neg st hp.operand).ok_of_eq ‹classSetOperand fl hn fuel neg st = _›
     simp only [OpPost] at h1
     have hs : SSuf inp2 st.inp := SSuf.suf_trans (hst1 ▸ suf_cons _ (suf_refl _)) h1.2.1
     exact (ih.operand neg ⟨inp2, st1.depth⟩ (hp.step (st' := ⟨inp2, st1.depth⟩) hs h1.2.2).le).error_of_eq ‹_›
   · rename_i st1 inp2 hst1 f l st2 hfl _ _ _
-    have h1 := (ih.operand neg st hp.operand).ok_of_eq ‹classSetOperand fl fuel neg st = _›
+    have h1 := (ih.operand neg st hp.operand).ok_of_eq ‹classSetOperand fl hn fuel neg st = _›
     simp only [OpPost] at h1
     have hs : SSuf inp2 st.inp := SSuf.suf_trans (hst1 ▸ suf_cons _ (suf_refl _)) h1.2.1
     have hp2 := hp.step (st' := ⟨inp2, st1.depth⟩) hs h1.2.2
-    have h2 := (ih.operand neg ⟨inp2, st1.depth⟩ hp2.le).ok_of_eq ‹classSetOperand fl fuel neg ⟨_, _⟩ = _›
+    have h2 := (ih.operand neg ⟨inp2, st1.depth⟩ hp2.le).ok_of_eq ‹classSetOperand fl hn fuel neg ⟨_, _⟩ = _›
     simp only [OpPost, OperandOK] at h2
     have hs2 : SSuf st2.inp st.inp := h2.2.1.trans hs
     have hd2 : st2.depth = st.depth := h2.2.2.trans h1.2.2
     refine (ih.union neg st2 _ (hp.step hs2 hd2) (range_ok hr h2.1 hfl)).mono ?_
     exact fun p hp' => hp'.trans hs2.1 hd2
-  · have h1 := (ih.operand neg st hp.operand).ok_of_eq ‹classSetOperand fl fuel neg st = _›
+  · have h1 := (ih.operand neg st hp.operand).ok_of_eq ‹classSetOperand fl hn fuel neg st = _›
     simp only [OpPost] at h1
     refine (ih.union neg _ _ (hp.step h1.2.1 h1.2.2) (unionOperand_ok hr h1.1)).mono ?_
     exact fun p hp' => hp'.trans h1.2.1.1 h1.2.2
 
 open Regress Regress.IR
 
-theorem classSetIntersection_step (fl : Flags) (fuel : Nat) (ih : ClassSetIH fl fuel) (neg : Bool) (st : CSt)
+theorem classSetIntersection_step (fl : Flags) (hn : Bool) (fuel : Nat) (ih : ClassSetIH fl hn fuel) (neg : Bool) (st : CSt)
     (r : ClassSet) (hp : CSPre (fuel + 1) 2 st) (hr : CSOK r) :
-    Ens (classSetIntersection fl (fuel + 1) neg st r) (CSPost st) := by
+    Ens (classSetIntersection fl hn (fuel + 1) neg st r) (CSPost st) := by
   generalize hfu : fuel + 1 = f
-  fun_cases classSetIntersection fl f neg st r
+  fun_cases classSetIntersection fl hn f neg st r
   all_goals try simp only [*]
   all_goals try (simp; done)
   all_goals try (simp at hfu; done)
   all_goals try (cases hfu)
   · exact (ih.operand _ _ hp.operand).error_of_eq ‹_›
-  · rename_i first st1 ec rest1 hst1 _ _ _
-    have h1 := (ih.operand neg st hp.operand).ok_of_eq ‹classSetOperand fl fuel neg st = _›
+  · rename_i first st1 ec rest1 hst1 _ _ _ _
+    have h1 := (ih.operand neg st hp.operand).ok_of_eq ‹classSetOperand fl hn fuel neg st = _›
     simp only [OpPost] at h1
     simp only [Ens_ok, CSPost]
     refine ⟨intersectOperand_ok hr (closeClassSetOperand_ok _ h1.1), ?_, h1.2.2⟩
     exact SSuf.suf_trans (hst1 ▸ suf_cons _ (suf_refl _)) h1.2.1
-  · rename_i first st1 ec _ _ rest2 hst1 _ _
-    have h1 := (ih.operand neg st hp.operand).ok_of_eq ‹classSetOperand fl fuel neg st = _›
+  · rename_i first st1 ec _ _ rest2 hst1 _ _ _
+    have h1 := (ih.operand neg st hp.operand).ok_of_eq ‹classSetOperand fl hn fuel neg st = _›
     simp only [OpPost] at h1
     have hs : SSuf rest2 st.inp :=
       SSuf.suf_trans (hst1 ▸ suf_cons _ (suf_cons _ (suf_refl _))) h1.2.1
@@ -681,24 +681,24 @@ theorem classSetIntersection_step (fl : Flags) (fuel : Nat) (ih : ClassSetIH fl 
       (intersectOperand_ok hr (closeClassSetOperand_ok _ h1.1))).mono ?_
     exact fun p hp' => hp'.trans hs.1 h1.2.2
 
-theorem classSetSubtraction_step (fl : Flags) (fuel : Nat) (ih : ClassSetIH fl fuel) (neg : Bool) (st : CSt)
+theorem classSetSubtraction_step (fl : Flags) (hn : Bool) (fuel : Nat) (ih : ClassSetIH fl hn fuel) (neg : Bool) (st : CSt)
     (r : ClassSet) (hp : CSPre (fuel + 1) 2 st) (hr : CSOK r) :
-    Ens (classSetSubtraction fl (fuel + 1) neg st r) (CSPost st) := by
+    Ens (classSetSubtraction fl hn (fuel + 1) neg st r) (CSPost st) := by
   generalize hfu : fuel + 1 = f
-  fun_cases classSetSubtraction fl f neg st r
+  fun_cases classSetSubtraction fl hn f neg st r
   all_goals try simp only [*]
   all_goals try (simp; done)
   all_goals try (simp at hfu; done)
   all_goals try (cases hfu)
   · exact (ih.operand _ _ hp.operand).error_of_eq ‹_›
   · rename_i first st1 ec rest1 hst1 _ _ _
-    have h1 := (ih.operand neg st hp.operand).ok_of_eq ‹classSetOperand fl fuel neg st = _›
+    have h1 := (ih.operand neg st hp.operand).ok_of_eq ‹classSetOperand fl hn fuel neg st = _›
     simp only [OpPost] at h1
     simp only [Ens_ok, CSPost]
     refine ⟨subtractOperand_ok hr (closeClassSetOperand_ok _ h1.1), ?_, h1.2.2⟩
     exact SSuf.suf_trans (hst1 ▸ suf_cons _ (suf_refl _)) h1.2.1
   · rename_i first st1 ec _ _ rest2 hst1 _ _
-    have h1 := (ih.operand neg st hp.operand).ok_of_eq ‹classSetOperand fl fuel neg st = _›
+    have h1 := (ih.operand neg st hp.operand).ok_of_eq ‹classSetOperand fl hn fuel neg st = _›
     simp only [OpPost] at h1
     have hs : SSuf rest2 st.inp :=
       SSuf.suf_trans (hst1 ▸ suf_cons _ (suf_cons _ (suf_refl _))) h1.2.1
@@ -708,11 +708,11 @@ theorem classSetSubtraction_step (fl : Flags) (fuel : Nat) (ih : ClassSetIH fl f
 
 open Regress Regress.IR
 
-theorem classSetExpression_step (fl : Flags) (fuel : Nat) (ih : ClassSetIH fl fuel) (neg : Bool) (st : CSt)
+theorem classSetExpression_step (fl : Flags) (hn : Bool) (fuel : Nat) (ih : ClassSetIH fl hn fuel) (neg : Bool) (st : CSt)
     (hp : CSPre (fuel + 1) 2 st) :
-    Ens (classSetExpression fl (fuel + 1) neg st) (CSPost st) := by
+    Ens (classSetExpression fl hn (fuel + 1) neg st) (CSPost st) := by
   generalize hfu : fuel + 1 = f
-  fun_cases classSetExpression fl f neg st
+  fun_cases classSetExpression fl hn f neg st
   all_goals try simp only [*]
   all_goals try (simp; done)
   all_goals try (simp at hfu; done)
@@ -721,30 +721,27 @@ theorem classSetExpression_step (fl : Flags) (fuel : Nat) (ih : ClassSetIH fl fu
     exact ⟨nil_wf, by ssuf_tac, trivial⟩
   · exact (ih.operand _ _ hp.operand).error_of_eq ‹_›
   · rename_i _ _ _ _ first st1 ec rest1 hst1 _ _ _
-    have h1 := (ih.operand neg st hp.operand).ok_of_eq ‹classSetOperand fl fuel neg st = _›
+    have h1 := (ih.operand neg st hp.operand).ok_of_eq ‹classSetOperand fl hn fuel neg st = _›
     simp only [OpPost] at h1
     simp only [Ens_ok, CSPost]
     refine ⟨unionOperand_ok (show CSOK {} from nil_wf) h1.1, ?_, h1.2.2⟩
     exact SSuf.suf_trans (hst1 ▸ suf_cons _ (suf_refl _)) h1.2.1
   · rename_i _ _ _ _ first st1 ec _ _ rest2 hst1 _ _
-    have h1 := (ih.operand neg st hp.operand).ok_of_eq ‹classSetOperand fl fuel neg st = _›
+    have h1 := (ih.operand neg st hp.operand).ok_of_eq ‹classSetOperand fl hn fuel neg st = _›
     simp only [OpPost] at h1
     have hs : SSuf rest2 st.inp :=
       SSuf.suf_trans (hst1 ▸ suf_cons _ (suf_cons _ (suf_refl _))) h1.2.1
     refine (ih.inter neg ⟨rest2, st1.depth⟩ _ (hp.step (st' := ⟨rest2, st1.depth⟩) hs h1.2.2)
       (unionOperand_ok (show CSOK {} from nil_wf) (closeClassSetOperand_ok _ h1.1))).mono ?_
     exact fun p hp' => hp'.trans hs.1 h1.2.2
-  · rename_i _ _ _ _ first st1 ec rest1 hst1 _ _ _ _ _ _ _
-    have h1 := (ih.operand neg st hp.operand).ok_of_eq ‹classSetOperand fl fuel neg st = _›
+  · -- a single `&` after the first operand: not consumed, the union loop reads it
+    have h1 := (ih.operand neg st hp.operand).ok_of_eq ‹classSetOperand fl hn fuel neg st = _›
     simp only [OpPost] at h1
-    have hs : SSuf rest1 st.inp := SSuf.suf_trans (hst1 ▸ suf_cons _ (suf_refl _)) h1.2.1
-    refine (ih.union neg ⟨rest1, st1.depth⟩ _ (hp.step (st' := ⟨rest1, st1.depth⟩) hs h1.2.2)
-      (show CSOK { cps := CPS.addOne (ClassSet.unionOperand {} first).cps 38,
-                   alts := (ClassSet.unionOperand {} first).alts } from
-        C12.addOne_wf (unionOperand_ok (show CSOK {} from nil_wf) h1.1) (by omega))).mono ?_
-    exact fun p hp' => hp'.trans hs.1 h1.2.2
+    refine (ih.union neg _ _ (hp.step h1.2.1 h1.2.2)
+      (unionOperand_ok (show CSOK {} from nil_wf) h1.1)).mono ?_
+    exact fun p hp' => hp'.trans h1.2.1.1 h1.2.2
   · rename_i _ _ _ _ first st1 ec _ _ _ inp2 hst1 _ _
-    have h1 := (ih.operand neg st hp.operand).ok_of_eq ‹classSetOperand fl fuel neg st = _›
+    have h1 := (ih.operand neg st hp.operand).ok_of_eq ‹classSetOperand fl hn fuel neg st = _›
     simp only [OpPost] at h1
     have hs : SSuf inp2 st.inp :=
       SSuf.suf_trans (hst1 ▸ suf_cons _ (suf_cons _ (suf_refl _))) h1.2.1
@@ -752,18 +749,18 @@ theorem classSetExpression_step (fl : Flags) (fuel : Nat) (ih : ClassSetIH fl fu
       (unionOperand_ok (show CSOK {} from nil_wf) (closeClassSetOperand_ok _ h1.1))).mono ?_
     exact fun p hp' => hp'.trans hs.1 h1.2.2
   · rename_i _ _ _ _ st1 ec rest1 hst1 _ _ _ f e _ _ _ _
-    have h1 := (ih.operand neg st hp.operand).ok_of_eq ‹classSetOperand fl fuel neg st = _›
+    have h1 := (ih.operand neg st hp.operand).ok_of_eq ‹classSetOperand fl hn fuel neg st = _›
     simp only [OpPost] at h1
     have hs : SSuf rest1 st.inp := SSuf.suf_trans (hst1 ▸ suf_cons _ (suf_refl _)) h1.2.1
     exact (ih.operand neg ⟨rest1, st1.depth⟩
       (hp.step (st' := ⟨rest1, st1.depth⟩) hs h1.2.2).le).error_of_eq ‹_›
   · rename_i _ _ _ _ st1 ec rest1 hst1 _ _ _ f l st2 hfl _ _ _ _
-    have h1 := (ih.operand neg st hp.operand).ok_of_eq ‹classSetOperand fl fuel neg st = _›
+    have h1 := (ih.operand neg st hp.operand).ok_of_eq ‹classSetOperand fl hn fuel neg st = _›
     simp only [OpPost] at h1
     have hs : SSuf rest1 st.inp := SSuf.suf_trans (hst1 ▸ suf_cons _ (suf_refl _)) h1.2.1
     have hp2 := hp.step (st' := ⟨rest1, st1.depth⟩) hs h1.2.2
     have h2 := (ih.operand neg ⟨rest1, st1.depth⟩ hp2.le).ok_of_eq
-      ‹classSetOperand fl fuel neg ⟨_, _⟩ = _›
+      ‹classSetOperand fl hn fuel neg ⟨_, _⟩ = _›
     simp only [OpPost, OperandOK] at h2
     have hs2 : SSuf st2.inp st.inp := h2.2.1.trans hs
     have hd2 : st2.depth = st.depth := h2.2.2.trans h1.2.2
@@ -772,7 +769,7 @@ theorem classSetExpression_step (fl : Flags) (fuel : Nat) (ih : ClassSetIH fl fu
       (range_ok (show CSOK {} from nil_wf) h2.1 hfl)).mono ?_
     exact fun p hp' => hp'.trans hs2.1 hd2
   · rename_i _ _ _ _ first st1 _ _ _ _ _ _ _ _
-    have h1 := (ih.operand neg st hp.operand).ok_of_eq ‹classSetOperand fl fuel neg st = _›
+    have h1 := (ih.operand neg st hp.operand).ok_of_eq ‹classSetOperand fl hn fuel neg st = _›
     simp only [OpPost] at h1
     refine (ih.union neg _ _ (hp.step h1.2.1 h1.2.2)
       (unionOperand_ok (show CSOK {} from nil_wf) h1.1)).mono ?_
@@ -780,7 +777,7 @@ theorem classSetExpression_step (fl : Flags) (fuel : Nat) (ih : ClassSetIH fl fu
 
 /-- The class-set functions never panic and never run out of fuel, for `fuel ≥ 2·len + 2`
 (`2·len + 1` for an operand); the sets they build are well-formed; `depth` is restored. -/
-theorem classSet_all (fl : Flags) (fuel : Nat) : ClassSetIH fl fuel := by
+theorem classSet_all (fl : Flags) (hn : Bool) (fuel : Nat) : ClassSetIH fl hn fuel := by
   induction fuel with
   | zero =>
     refine ⟨?_, ?_, ?_, ?_, ?_⟩
@@ -790,8 +787,8 @@ theorem classSet_all (fl : Flags) (fuel : Nat) : ClassSetIH fl fuel := by
     · intro neg st r hp; have := hp.1; omega
     · intro neg st hp; have := hp.1; omega
   | succ fuel ih =>
-    exact ⟨classSetExpression_step fl fuel ih, classSetUnion_step fl fuel ih,
-      classSetIntersection_step fl fuel ih, classSetSubtraction_step fl fuel ih,
-      classSetOperand_step fl fuel ih⟩
+    exact ⟨classSetExpression_step fl hn fuel ih, classSetUnion_step fl hn fuel ih,
+      classSetIntersection_step fl hn fuel ih, classSetSubtraction_step fl hn fuel ih,
+      classSetOperand_step fl hn fuel ih⟩
 
 end Regress.Parse
